@@ -58,14 +58,17 @@ pub mod iter {
             requires forall|t: &T| call_requires(p, (t,)),
             ensures
                 forall|g: spec_fn(T) -> bool| (forall|x: &T, o: bool| #[trigger] call_ensures(p, (x,), o) ==> o == g(*x)) ==>
-                    r@.items == #[trigger] tw(self@.items, g) && (r@.endless ==> self@.endless && all_sat(self@.items, g)),
+                    r@.items == #[trigger] tw(self@.items, g),
+                // it can only go on for ever if the source does and no item is ever rejected
+                r@.endless ==> self@.endless && (forall|i: int| 0 <= i < self@.items.len() ==> call_ensures(p, (&#[trigger] self@.items[i],), true)),
         { unimplemented!() }
         #[verifier::external_body]
         pub fn map_while<U, F: FnMut(T) -> Option<U>>(self, f: F) -> (r: Iter<U>)
             requires forall|t: T| call_requires(f, (t,)),
             ensures
                 forall|g: spec_fn(T) -> Option<U>| (forall|x: T, o: Option<U>| #[trigger] call_ensures(f, (x,), o) ==> o == g(x)) ==>
-                    r@.items == #[trigger] mw(self@.items, g) && (r@.endless ==> self@.endless && all_some(self@.items, g)),
+                    r@.items == #[trigger] mw(self@.items, g),
+                r@.endless ==> self@.endless && (forall|i: int| 0 <= i < self@.items.len() ==> exists|u: U| call_ensures(f, (#[trigger] self@.items[i],), Some(u))),
         { unimplemented!() }
         #[verifier::external_body]
         pub fn map<U, F: FnMut(T) -> U>(self, f: F) -> (r: Iter<U>)
